@@ -605,6 +605,44 @@ func (c *Ctx) c11Add(m *fsModel) {
 			widx = call
 		}
 	})
+	// AddMessage may hand the whole delivery to another function of the package (through a
+	// lock gate's closure: mb.update(func() error { id, err = mb.addMessage(m) … })): the
+	// sequence is then judged in the function that performs the index update
+	if widx == nil {
+		var cands []*ssa.Function
+		for g := range p.SyncReach(add) {
+			if g == add || g == m.writeIdx || eng.FuncPkgPath(g) != eng.FuncPkgPath(add) {
+				continue
+			}
+			has := false
+			eng.EachInstr(g, func(in ssa.Instruction) {
+				if call, ok := in.(*ssa.Call); ok && in.Parent() == g && eng.StaticCallee(call.Common()) == m.writeIdx {
+					has = true
+				}
+			})
+			if has {
+				cands = append(cands, g)
+			}
+		}
+		// the one that also reaches the raw-file creation
+		var pick []*ssa.Function
+		for _, g := range cands {
+			for _, e := range m.effects {
+				if e.op == "Create" && e.class[0] == "raw" && p.SyncReach(g)[e.fn] {
+					pick = append(pick, g)
+					break
+				}
+			}
+		}
+		if len(pick) == 1 {
+			add = pick[0]
+			eng.EachInstr(add, func(in ssa.Instruction) {
+				if call, ok := in.(*ssa.Call); ok && in.Parent() == add && m.updatesIndex(eng.StaticCallee(call.Common()), 0) {
+					widx = call
+				}
+			})
+		}
+	}
 	// the function that creates the raw file: AddMessage itself or a package helper it calls
 	var W *ssa.Function
 	for _, e := range m.effects {
